@@ -397,7 +397,6 @@ func walkCvt(pj *simdjson.ParsedJson) ([]byte, error) {
 	}
 }
 
-
 // ---------------------------------------------------------------------------------------------
 // Pool isolation without concurrency: the package-level pools of compressors behind Serialize are shared by every
 // Serializer in the process. What one caller's Serializer did (in another mode) must not change the bytes another
